@@ -417,6 +417,8 @@ def r2(ctx):
         fx = _fanout_index(fan[0])
         ga = guard_atoms(cfg, cfg.node_containing(fan[0]))
         ok = fx is not None and fx[1] == wl and fx[2] == 1 and ("0 == %s" % u(idx), True) in ga and ("add_untagged", True) in ga
+        if not ok and (fx is None or fx[2] is None) and ("0 == %s" % u(idx), True) in ga:
+            ok = None  # the copies run over indices / writers this rule cannot enumerate (e.g. a range chosen before the loop)
     ctx.ob(run.qual, "add-untagged-fan-out", ok, run.loc(fan[0]) if fan else run.loc(loop), "untagged reads are copied to every writer of %s[1:] exactly under `haplotype == 0 and add_untagged`" % wl if ok else "the --add-untagged copy is not `for w in %s[1:]: w.write(record)` under `haplotype == 0 and add_untagged`" % wl)
 
 
